@@ -57,7 +57,7 @@ class Stage:
                 self.add(blk.i, 'STORE')
             elif p.endswith('VecDeque::<T, A>::is_empty') and 'DltMessage' in a0ty:
                 self.add(blk.i, 'Q_IS_EMPTY')
-            elif re.search(r'VecDeque::<T, A>::(front|front_mut|get)$', p) and 'DltMessage' in a0ty:
+            elif re.search(r'VecDeque::<T, A>::(front|front_mut|get)$', p) and 'DltMessage' in a0ty and self._discr_switched(blk):
                 self.add(blk.i, 'Q_IS_EMPTY')     # `while let Some(m) = q.front()`: the None edge is the emptiness test
             elif p.startswith('std::collections::HashSet::<') and re.search(r'HashSet<u32\b', a0ty):
                 m = p.split('::')[-1]
@@ -102,6 +102,25 @@ class Stage:
                     if l in recv_locals:
                         src = 'direct'
                 self.info[bi]['src'] = src or 'queued'
+
+    def _discr_switched(self, blk):
+        """is the Option returned by this call decided on directly (`while let Some(..) = call()` / `match call()`):
+        the block the call returns to reads the discriminant of the destination and switches on it"""
+        from facts import Operand
+        t = blk.term
+        nxt = t.d.get('t')
+        if nxt is None or not t.dest.is_local:
+            return False
+        nb = self.body.blocks[nxt]
+        if nb.term.k != 'switch':
+            return False
+        d = Operand(nb.term.d['d'])
+        if d.place is None or not d.place.is_local:
+            return False
+        for s in nb.stmts:
+            if s.k == 'assign' and s.place.is_local and s.place.l == d.place.l and s.rv['k'] == 'discr' and s.rv['p']['l'] == t.dest.l and not s.rv['p'].get('p'):
+                return True
+        return False
 
     def trace_local(self, op, depth=0):
         """follow moves / 1-tuples of single-definition temps back to a named local (by index)"""
